@@ -13,6 +13,7 @@ import (
 	"pgregory.net/rapid"
 
 	"verifharness/internal/evid"
+	"verifharness/internal/kf"
 	"verifharness/internal/sim"
 )
 
@@ -64,6 +65,21 @@ func TestRegistryConsistentAlongHistories(t *testing.T) {
 	})
 }
 
+const kfStalePoolSwitch = "c10.status-switch-applied-with-stale-pool-view"
+
+// addresses left online by the known finding, per world (one world per generated case)
+var staleOnline = map[*sim.World]map[common.Address]bool{}
+
+// switchedInBlock: blk carries a status-switch transaction of addr (the switch may be applied by the same block).
+func switchedInBlock(blk *types.Block, addr common.Address) bool {
+	for _, tx := range blk.Body.Transactions {
+		if from, _ := types.Sender(tx); tx.Type == types.OnlineStatusTx && from == addr {
+			return true
+		}
+	}
+	return false
+}
+
 // checkRegistryAfterBlock is the oracle of the history-based variants: incremental view == rebuilt view, registry ==
 // ledger. It returns true when the block's identity diff touched a pool or a delegator together with another address.
 func checkRegistryAfterBlock(t *rapid.T, h *sim.History, blk *types.Block) (sawPoolDiff bool) {
@@ -97,6 +113,22 @@ func checkRegistryAfterBlock(t *rapid.T, h *sim.History, blk *types.Block) (sawP
 					}
 				}
 				if s.IdentityState.IsOnline(a.Addr) && !regValidated && !vc.IsPool(a.Addr) {
+					if staleOnline[w][a.Addr] {
+						continue // consequence of the known finding met earlier in this history
+					}
+					// known finding: a pending status switch of an address that WAS a pool before this block, is not
+					// validated, and stops being a pool inside this very block (its last delegator is terminated /
+					// leaves) is applied against the one-block-old pool view: the address is switched online
+					if prev, err := r.AppState.Readonly(blk.Height() - 1); err == nil && blk.Header.Flags().HasFlag(types.IdentityUpdate) &&
+						prev.ValidatorsCache.IsPool(a.Addr) && (prev.State.HasStatusSwitchAddresses(a.Addr) || switchedInBlock(blk, a.Addr)) {
+						if kf.Report(t, "C10", kfStalePoolSwitch, "after %s: %s is online but neither validated nor a pool (it was a pool before this block and had a status switch pending)\nhistory:\n%s", sim.BlockDesc(blk), a, h.Summary()) {
+							if staleOnline[w] == nil {
+								staleOnline = map[*sim.World]map[common.Address]bool{w: {}}
+							}
+							staleOnline[w][a.Addr] = true
+							continue
+						}
+					}
 					t.Fatalf("after %s: %s is online but neither validated nor a pool\nhistory:\n%s", sim.BlockDesc(blk), a, h.Summary())
 				}
 			}
